@@ -226,7 +226,12 @@ def hyp_run(ctx, fam, n):
     @given(strat)
     def body(case):
         ctx.begin(fam.name, case)
-        fam.check(ctx, case)
+        try:
+            fam.check(ctx, case)
+        except BaseException:
+            # keep the real traceback: Hypothesis may replace it by a FlakyFailure wrapper
+            sys.stderr.write('HARNESS-EXCEPTION in %s case %r:\n%s\n' % (fam.name, case, traceback.format_exc()))
+            raise
 
     body()
 
